@@ -281,9 +281,14 @@ impl Poly {
                 // In this case the roots are the roots of Bx-abs(C) (C < 0)
                 let b = div.mod_uint(&self.b);
                 let binv = inv.invert(b as u32, &div) as u64;
-                debug_assert!(self.c.is_negative());
+                // C is negative when D*D < N, but in multi-threaded mode remote
+                // blocks of small inputs can produce a positive C.
                 let c = div.mod_uint(&self.c.abs().to_bits());
-                let r = shift(div.divmod64(c * binv).1 as u32);
+                let mut x = div.divmod64(c * binv).1 as u32;
+                if !self.c.is_negative() && x != 0 {
+                    x = p - x;
+                }
+                let r = shift(x);
                 (r, r)
             } else {
                 let d2inv = div.modu63(dinv as u64 * dinv as u64);
